@@ -885,3 +885,71 @@ Example C08_example_src_init :
   | Err _ => false
   end = true.
 Proof. vm_compute. reflexivity. Qed.
+
+(* ------------------------------------------------------------------ reachable states satisfy the invariant
+   The Gaussian-block and cache theorems above assume the cache exact at the start (cache_ok / Inv).  After __init__,
+   after _update and after reset_model it is stale.  The first block of every sweep, _reconstruct_Mu, establishes the
+   invariant from the shapes alone; so the theorems above are not vacuous on the first sweep of a chain, after new data or
+   after a reset.  (ValidData: the ids are those C01 produces, samples >= 0, treatments >= -1; reach does not constrain them.) *)
+From Batchie Require Import Proofs.C08Reach.
+
+(* a state that is ready for a sweep (right shapes, cache no longer than the data): after _reconstruct_Mu the invariant holds *)
+Theorem C08_reconstruct_establishes_invariant : forall g d s,
+  sweep_ready g d s -> Inv g d (reconstruct_Mu g d false s).
+Proof. exact ready_reconstruct_inv. Qed.
+Print Assumptions C08_reconstruct_establishes_invariant.
+
+(* from every REACHABLE state, for every sequence of step functions that starts with _reconstruct_Mu, for all answers of
+   all draws: the cache is exact and the arrays have their sizes *)
+Theorem C08_reachable_cache_invariant : forall g d orc bs s,
+  reach g orc d s -> ValidData d -> NoSelfCombo d ->
+  all_rets (Inv g d) (run_blocks g d orc (BReconstruct :: bs) s).
+Proof. exact reach_cache_invariant. Qed.
+Print Assumptions C08_reachable_cache_invariant.
+
+(* in particular after every non-empty prefix of the documented sweep, also after j further whole sweeps, and after the
+   whole sweep itself *)
+Theorem C08_reachable_cache_invariant_prefix : forall g d orc j k s,
+  reach g orc d s -> ValidData d -> NoSelfCombo d -> (1 <= k)%nat ->
+  all_rets (Inv g d) (run_blocks g d orc (firstn k step_order ++ concat (repeat step_order j)) s)
+  /\ all_rets (Inv g d) (run_blocks g d orc (step_order ++ concat (repeat step_order j) ++ firstn k step_order) s).
+Proof. exact reach_cache_invariant_prefix. Qed.
+Print Assumptions C08_reachable_cache_invariant_prefix.
+
+Theorem C08_reachable_sweep_invariant : forall g d orc s,
+  reach g orc d s -> ValidData d -> NoSelfCombo d -> all_rets (Inv g d) (mcmc_step g d orc s).
+Proof. exact reach_sweep_invariant. Qed.
+Print Assumptions C08_reachable_sweep_invariant.
+
+(* the bridging corollary: from a reachable state, after _reconstruct_Mu and any further step functions `pre`, whichever
+   Gaussian step function b in {W0, V0, W, V2, V1} runs next, EVERY per-index draw inside it is computed in a state where the
+   draw arguments are those of the full conditional (the conclusions of C08_gauss_block_W0 ... _V1, with no cache or
+   length hypothesis left) *)
+Theorem C08_reachable_gauss_draws_are_conditionals : forall g d orc ln pre b s,
+  reach g orc d s -> ValidData d -> NoSelfCombo d ->
+  all_rets (all_block_starts (fun s2 => W0_conditional g d ln s2 /\ V0_conditional g d ln s2 /\ W_conditional g d ln s2 /\
+                                        V2_conditional g d ln s2 /\ V1_conditional g d ln s2) (gauss_blocks g d b))
+           (run_blocks g d orc (BReconstruct :: pre) s).
+Proof. exact reach_gauss_draws_are_conditionals. Qed.
+Print Assumptions C08_reachable_gauss_draws_are_conditionals.
+
+(* ... where a Gaussian step function IS the sequence of its per-index blocks *)
+Theorem C08_gauss_step_is_its_blocks : forall g d orc b s,
+  In b [BW0; BV0; BW; BV2; BV1] -> step_prog g d orc b s = seq_blocks (gauss_blocks g d b) s.
+Proof. exact gauss_blocks_step. Qed.
+Print Assumptions C08_gauss_step_is_its_blocks.
+
+(* not vacuous: the state __init__ creates, one observation added (stale empty cache: NOT Inv), is reachable, and after
+   _reconstruct_Mu it satisfies the invariant *)
+Example C08_reachable_not_vacuous :
+  let g := {| c_D := 1; c_ndd := 2; c_ncl := 1; c_a0 := 1; c_b0 := 1; c_minMu := - qofZ 10; c_maxMu := qofZ 10 |} in
+  let d := data_snoc data_empty (Q2Qc (1 # 2)) 0%Z 0%Z 1%Z in
+  (forall orc, reach g orc d (init_st g)) /\ ~ cache_ok g d (init_st g) /\ NoSelfCombo d
+  /\ cache_ok g d (reconstruct_Mu g d false (init_st g)).
+Proof.
+  cbv zeta. repeat split.
+  - intros orc. apply R_update. apply R_init.
+  - unfold cache_ok. vm_compute. discriminate.
+  - intros i Hi. vm_compute in Hi. assert (i = 0%nat) as -> by (destruct i; [reflexivity|apply le_S_n in Hi; inversion Hi]).
+    right. vm_compute. discriminate.
+Qed.
